@@ -752,6 +752,47 @@ fn rt_slices(t: &mut Tape<'_>, o: &mut Obs) -> R {
         u8, u64, bool, String, (u8, bool), Option<u16>, Vec<u8>, G1, Named, Md, (), BigUint)
 }
 
+/// Byte strings that are well-formed encodings of a *sequence of map entries* with repeated keys (a map value cannot hold
+/// them, a hostile sender can write them): read as `BTreeMap<K, V>` / `BTreeSet<K>` with validation, every entry that
+/// is read has to be validated - an entry that is later replaced by one with an equal key included.
+fn dup_keys<V: Hv>(name: &'static str, t: &mut Tape<'_>, o: &mut Obs) -> R {
+    let mut g = Gen::new(t, 24);
+    let bp = g.t.weighted(&[2, 5, 3]);
+    g.bad_points = [0u64, 3, 8][bp];
+    let n = 2 + g.t.below(6) as usize;
+    let mut entries: Vec<(u8, V)> = (0..n).map(|_| ((g.t.below(4) as u8), V::gen(&mut g))).collect();
+    // force at least one repeated key, adjacent or not
+    let (i, j) = (g.t.idx(n), g.t.idx(n));
+    if i != j {
+        entries[j].0 = entries[i].0;
+    }
+    let repeated = (0..n).any(|a| (0..a).any(|b| entries[a].0 == entries[b].0));
+    let valid = entries.iter().all(|(_, v)| v.ok());
+    o.show(|| format!("{}: {} entries read as a map, keys {:?}, all values valid: {}", name, n, entries.iter().map(|e| e.0).collect::<Vec<_>>(), valid));
+    o.nt(repeated && !valid);
+    o.class_if(repeated, "map-encoding-with-repeated-key");
+    o.class_if(!valid, "contains-invalid-point");
+    o.class_if(repeated && !valid && entries.iter().enumerate().any(|(a, (k, v))| !v.ok() && entries[a + 1..].iter().any(|(k2, _)| k2 == k)), "invalid-entry-later-replaced");
+    for (c, val) in MODES {
+        let bytes = ser(&entries, c, "serialize")?;
+        let (r, _) = de::<BTreeMap<u8, V>>(&bytes, c, val)?;
+        if val == Validate::Yes {
+            match r {
+                Ok(m) => ensure!(valid, format!("dup-keys.accepted.{}", cname(c)), "{}: a map encoding containing an invalid value was accepted with validation on ({} entries decoded): keys {:?}", name, m.len(), entries.iter().map(|e| e.0).collect::<Vec<_>>()),
+                Err(e) => ensure!(!valid, format!("dup-keys.rejected.{}", cname(c)), "{}: a map encoding whose values are all valid was rejected: {}", name, e),
+            }
+        } else {
+            ensure!(r.is_ok(), format!("dup-keys.unchecked.rejected.{}", cname(c)), "{}: unchecked read of a well-formed map encoding failed", name);
+        }
+    }
+    Ok(())
+}
+
+fn dup_keys_rel(t: &mut Tape<'_>, o: &mut Obs) -> R {
+    dispatch!(t, dup_keys(t, o);
+        G1, One, Named, Option<G1>, (G1, u8), Vec<G1>)
+}
+
 fn validity_rel(t: &mut Tape<'_>, o: &mut Obs) -> R {
     dispatch!(t, validity(t, o);
         Named, Tup, One, Gs<G1>, Option<Tup>, [One; 2], Option<G1>, (G1, u8), [G1; 3], Arc<G1>, Cow<'static, One>, Plain)
@@ -799,6 +840,7 @@ fn relations(tier: Tier) -> Vec<Rel> {
         Rel::new("roundtrip/containers-of-structs+points", q(600), 1400, rt_derive2),
         Rel::new("roundtrip/pinned-wrappers+serde_json", q(1200), 800, rt_pinned),
         Rel::new("roundtrip/large-values", q(160), 400, rt_large).shrink_iters(300),
+        Rel::new("validity/map-encodings-with-repeated-keys", q(600), 600, dup_keys_rel),
         Rel::new("roundtrip/len-at-prealloc-cap", q(66), 16, rt_cap).shrink_iters(20),
         Rel::new("roundtrip/slices", q(1200), 600, rt_slices),
         Rel::new("validity/structs+points", q(1200), 700, validity_rel),
